@@ -42,7 +42,7 @@ def alphabet():
 
 def plan(tier, seed):
     if tier == 'quick':
-        return {'n': 5000, 'deadline': 50,
+        return {'n': 5000, 'deadline': 150,
                 'floor': {'distinct_nontrivial': 1000, 'ops_assert': 10000, 'ops_retract': 5000, 'ops_retractall': 2000,
                           'retract_abandoned': 1000, 'dumps_compared': 40000, 'zero_arity_ops': 3000,
                           'goal_in_variable_ops': 3000, 'ops_on_unknown_predicate': 500}}
